@@ -115,6 +115,34 @@ PartIsBoundary(P, dim, BS) ==
   /\ \A e \in 0..(dim - 1) : Len(P.t[e + 1]) >= Cardinality(BS[e])
   /\ \A e \in 0..(dim - 1) : TRange(P.t[e + 1]) = BS[e]
 
+\* ---- relabelling (RootMeshNode::create_permutation with any PermutationStrategy) ----------------------------------------------
+\* P.p[d+1] / P.ip[d+1] are the forward / inverse permutations stored in the mesh (MeshPermutation::get_perms / get_inv_perms):
+\* the new d-entity i is the old d-entity p[i].  The permuted mesh must be the original one relabelled by these bijections -
+\* same coordinates, same sub-entities in the same local order, i.e. every predicate of this module is invariant - and every
+\* mesh part must still point to the same entities as before (so that PartFollows keeps its meaning).
+\* An EMPTY stored permutation stands for the identity (strategies such as colored / cuthill_mckee only renumber the cells;
+\* TargetSet::permute_map and IndexSet::permute skip empty permutations).
+IsPermutation(p, n) == Len(p) = n /\ {p[i] : i \in 1..n} = 0..(n - 1)
+EffPerm(p, n) == IF Len(p) = 0 THEN [i \in 1..n |-> i - 1] ELSE p
+PermutationsStored(Mo, P, dim) ==
+  /\ Len(P.p) = dim + 1 /\ Len(P.ip) = dim + 1
+  /\ \A d \in 0..dim :
+       LET n == N(Mo, d)  f == EffPerm(P.p[d + 1], n)  g == EffPerm(P.ip[d + 1], n) IN
+       /\ IsPermutation(f, n) /\ IsPermutation(g, n)
+       /\ \A i \in 1..n : g[f[i] + 1] = i - 1
+ForwardPermsOK(Mo, P, dim) == Len(P.p) = dim + 1 /\ \A d \in 0..dim : IsPermutation(EffPerm(P.p[d + 1], N(Mo, d)), N(Mo, d))
+Relabelled(Mo, Mp, P, fam, dim) ==
+  LET F == [d \in 1..(dim + 1) |-> EffPerm(P.p[d], N(Mo, d - 1))] IN
+  /\ Mp.n = Mo.n /\ Len(Mp.X) = Len(Mo.X)
+  /\ \A v \in 1..N(Mo, 0) : Mp.X[v] = Mo.X[F[1][v] + 1]
+  /\ \A d \in 1..dim : \A e \in 0..(d - 1) : \A i \in 1..N(Mo, d) : \A k \in 1..NF(fam, d, e) :
+       F[e + 1][Idx(Mp, d, e)[i][k] + 1] = Idx(Mo, d, e)[F[d + 1][i] + 1][k]
+PartRelabelled(Mo, Po, Pp, P, dim) ==
+  /\ Pp.name = Po.name /\ Pp.topo = Po.topo /\ (Po.topo => Pp.tidx = Po.tidx)
+  /\ \A d \in 0..dim :
+       /\ Len(Pp.t[d + 1]) = Len(Po.t[d + 1])
+       /\ \A j \in 1..Len(Po.t[d + 1]) : EffPerm(P.p[d + 1], N(Mo, d))[Pp.t[d + 1][j] + 1] = Po.t[d + 1][j]
+
 \* ---- refinement relation ------------------------------------------------------------------------------------------------
 \* entity counts: n'_e = sum_d n_d * NumChildren(d, e)
 RECURSIVE CountSum(_, _, _, _)
